@@ -85,7 +85,7 @@ func runC12(c *eng.Ctx) {
 					if el == nil || !el.IsElem(cl.Args[0]) {
 						return true
 					}
-					list, isList := ast.Unparen(el.Base).(*ast.CompositeLit)
+					list, isList := ast.Unparen(resolveLocal(info, lit.Body, el.Base)).(*ast.CompositeLit)
 					l := p.LitOf(lit)
 					if !isList || l == nil {
 						return true
@@ -108,7 +108,8 @@ func runC12(c *eng.Ctx) {
 					if is, isIf := n.(*ast.IfStmt); isIf {
 						// the condition is exactly one comparison of the debug switch with a constant
 						mentions := false
-						if be, isB := ast.Unparen(is.Cond).(*ast.BinaryExpr); isB && (be.Op == token.NEQ || be.Op == token.EQL) {
+						cond := resolveLocal(info, lit.Body, is.Cond)
+						if be, isB := ast.Unparen(cond).(*ast.BinaryExpr); isB && (be.Op == token.NEQ || be.Op == token.EQL) {
 							for _, side := range []ast.Expr{be.X, be.Y} {
 								if o := eng.SelObj(info, side); o != nil && o.Name() == "DebugKeepTmpFilesVar" {
 									mentions = true
@@ -123,13 +124,65 @@ func runC12(c *eng.Ctx) {
 				})
 				return ok
 			}
+			// polarity of the guard: assuming the debug switch is NOT "yes", every path through the cleanup literal
+			// passes an os.Remove (of this path, directly or through the loop form)
+			removesUnlessKept := func(lit *ast.FuncLit) bool {
+				l := p.LitOf(lit)
+				if l == nil {
+					return false
+				}
+				lg := p.GraphOfLit(l)
+				notKept := func(fc eng.Fact) bool {
+					x, y, eq, ok := eng.EqAtom(fc)
+					if !ok {
+						return false
+					}
+					for i := 0; i < 2; i++ {
+						if o := eng.SelObj(info, x); o != nil && o.Name() == "DebugKeepTmpFilesVar" {
+							if v, isC := eng.ConstStr(info, y); isC && v == "yes" {
+								return !eq
+							}
+						}
+						x, y = y, x
+					}
+					return false
+				}
+				isRemove := func(n *eng.GNode) bool {
+					return len(lg.CallsAt(n, func(o types.Object, _ *ast.CallExpr) bool { return eng.IsPkgFunc(o, "os", "Remove") })) > 0
+				}
+				// a removal loop counts when its body must pass the removal; treat the loop head as the removal then
+				loopHeads := []func(*eng.GNode) bool{}
+				for _, el := range elemLoopsOver(info, lit.Body, func(ast.Expr) bool { return true }) {
+					if loopBodyMustPass(lg, el.Stmt, isRemove) {
+						loopHeads = append(loopHeads, isLoopHeadOf(el.Stmt))
+					}
+				}
+				via := func(n *eng.GNode) bool {
+					if isRemove(n) && eng.LoopOf(lit.Body, n.Node.Pos()) == nil {
+						return true
+					}
+					for _, h := range loopHeads {
+						if h(n) {
+							return true
+						}
+					}
+					return false
+				}
+				reach := lg.Reach(eng.Query{FromEntry: true, Assume: notKept, AvoidEdge: lg.Infeasible(notKept), AvoidNode: via})
+				for n := range reach {
+					if n.Exit && !via(n) {
+						return false
+					}
+				}
+				return true
+			}
 			isCleanup := func(n *eng.GNode) bool {
 				d, ok := n.Node.(*ast.DeferStmt)
 				if !ok {
 					return false
 				}
 				if fl, isL := ast.Unparen(d.Call.Fun).(*ast.FuncLit); isL {
-					return removes(fl) && guardOK(fl)
+					return removes(fl) && guardOK(fl) && removesUnlessKept(fl)
 				}
 				return eng.IsPkgFunc(eng.CalleeOf(info, d.Call), "os", "Remove") && len(d.Call.Args) == 1 && eng.SelObj(info, d.Call.Args[0]) == pathVar
 			}
@@ -251,16 +304,14 @@ func runC12(c *eng.Ctx) {
 				return true
 			}
 			ap := builtinCall(info, as.Rhs[0], "append")
-			if ap == nil || len(ap.Args) != 2 {
+			if ap == nil || len(ap.Args) < 2 || ap.Ellipsis.IsValid() {
 				return true
 			}
-			cl, isC := ast.Unparen(ap.Args[1]).(*ast.CallExpr)
-			if !isC || !eng.IsPkgFunc(eng.CalleeOf(info, cl), "fmt", "Sprintf") || len(cl.Args) != 2 {
-				return true
-			}
-			if fs, isS := eng.ConstStr(info, cl.Args[0]); isS && strings.HasSuffix(fs, "=%s") {
-				got[strings.TrimSuffix(fs, "=%s")] = eng.SelObj(info, cl.Args[1])
-				envsVar = eng.SelObj(info, as.Lhs[0])
+			for _, a := range ap.Args[1:] {
+				if name, val, isB := envBinding(info, a); isB {
+					got[name] = eng.SelObj(info, val)
+					envsVar = eng.SelObj(info, as.Lhs[0])
+				}
 			}
 			return true
 		})
@@ -310,15 +361,15 @@ func runC12(c *eng.Ctx) {
 				return false
 			}
 			ap := builtinCall(info, as.Rhs[0], "append")
-			if ap == nil || len(ap.Args) != 2 {
+			if ap == nil || len(ap.Args) < 2 || ap.Ellipsis.IsValid() {
 				return false
 			}
-			cl, isC := ast.Unparen(ap.Args[1]).(*ast.CallExpr)
-			if !isC || !eng.IsPkgFunc(eng.CalleeOf(info, cl), "fmt", "Sprintf") || len(cl.Args) < 1 {
-				return false
+			for _, a := range ap.Args[1:] {
+				if name, _, isB := envBinding(info, a); isB && strings.HasSuffix(name, "_PATH") {
+					return true
+				}
 			}
-			fs, isS := eng.ConstStr(info, cl.Args[0])
-			return isS && strings.HasSuffix(fs, "_PATH=%s")
+			return false
 		}
 		var contract []*eng.GNode
 		for _, n := range g.Nodes {
@@ -413,4 +464,21 @@ func whoCalls(c *eng.Ctx, r *eng.RuleCtx, fn *types.Func, what string, allowed m
 	if len(sites) == 0 {
 		r.Unknown("callers of "+what, token.NoPos, "no call site found (the anchor is not used any more?)")
 	}
+}
+
+// envBinding recognises one `NAME=value` element of an environment list: fmt.Sprintf("NAME=%s", v) or the
+// concatenation <constant ending in "="> + v (the constant part may be built from named constants).
+func envBinding(info *types.Info, e ast.Expr) (string, ast.Expr, bool) {
+	e = ast.Unparen(e)
+	if cl, isC := e.(*ast.CallExpr); isC && eng.IsPkgFunc(eng.CalleeOf(info, cl), "fmt", "Sprintf") && len(cl.Args) == 2 {
+		if fs, isS := eng.ConstStr(info, cl.Args[0]); isS && strings.HasSuffix(fs, "=%s") {
+			return strings.TrimSuffix(fs, "=%s"), cl.Args[1], true
+		}
+	}
+	if b, isB := e.(*ast.BinaryExpr); isB && b.Op == token.ADD {
+		if pre, isS := eng.ConstStr(info, b.X); isS && strings.HasSuffix(pre, "=") && len(pre) > 1 {
+			return strings.TrimSuffix(pre, "="), b.Y, true
+		}
+	}
+	return "", nil, false
 }
